@@ -1,5 +1,7 @@
 #!/bin/bash
 # confirm a seeded change: usage confirm_seed.sh <PROP> <mdir> [ctest-regex]
+# several of these can run at once when each runs in private namespaces (own /dev/shm, System V IPC, loopback) and its own clone:
+#   CONFIRM_VER=/tmp/confirm/verifN unshare -m -i -n bash -c 'mount -t tmpfs tmpfs /dev/shm; ip link set lo up; bash tools/confirm_seed.sh …'
 # 1. fresh worktree of /repo HEAD  2. apply patch, build, run the test suite (or regex)  3. demo with change (must fail)
 # 4. run our check(s) against the patched tree  5. revert, rebuild, demo without change (must pass)  6. clean up
 set -u
@@ -19,7 +21,7 @@ DEMO=$(ls "$MD"/demo.c "$MD"/demo.cpp 2>/dev/null | head -1)
 CC=gcc; case "$DEMO" in *.cpp) CC=g++;; esac
 $CC "$DEMO" -I"$WT/src" -I"$WT/_b/src" -L"$WT/_b/src" -lplibsys -lpthread -Wl,-rpath,"$WT/_b/src" -o "$WT/_b/demo" && { timeout 300 "$WT/_b/demo" | tail -3; echo "DEMO-WITH-CHANGE rc=${PIPESTATUS[0]}"; }
 # run the checks from a private clone of /verif so that evidence/ and lean/PV/Generated of /verif are not touched
-VER=/tmp/confirm/verif
+VER=${CONFIRM_VER:-/tmp/confirm/verif}
 if [ -d "$VER/.git" ]; then git -C "$VER" pull -q --ff-only /verif main 2>/dev/null || { rm -rf "$VER"; git clone -q /verif "$VER"; }; else git clone -q /verif "$VER"; fi
 for P in $PROP; do
   echo "== our check $P against the patched tree"
